@@ -69,19 +69,77 @@ class Auth:
         self.memo = {}
         self.cores = {}
 
-    def summary(self, fn, bind=()):
-        key = (fn.key, tuple(bind))
+    def summary(self, fn, bind=(), accept="Z"):
+        """accept: which return values of fn mean "authentic" - 'Z' (status functions) or 'NZ'
+        (boolean helpers returning true on a match)"""
+        key = (fn.key, tuple(bind), accept)
         if key in self.memo:
             return self.memo[key]
         self.memo[key] = None     # recursion guard (library is recursion-free)
-        s = self._analyse(fn, bind)
+        s = self._analyse(fn, bind, accept)
         self.memo[key] = s
         return s
 
-    def _analyse(self, fn, bind):
+    def witness(self, fn, p, conj):
+        """the event on path p that establishes authentication under the atoms conj, as
+        (kind, compared lengths, tag parameter indices, event) or None"""
+        prog = self.prog
+        for e in p.calls():
+            n = cm.comparator_len(e)
+            if n is not None:
+                if not cm.call_is_zero(p, e, conj):
+                    continue
+                roots = [T.root(a) for a in e.args[:2]]
+                loc = [r for r in roots if r[0] == "alloca"]
+                par = [r for r in roots if r[0] == "arg"]
+                if len(loc) == 1 and len(par) == 1:
+                    written = any(cm.writes_through(prog, p, e0, loc[0])
+                                  for e0 in p.events[:e.idx] if e0.kind == "call")
+                    if written:
+                        return ("core", {n}, {par[0][1]}, e)
+                if len(par) == 2 and par[0] != par[1] and fn.internal:
+                    # a helper comparing two caller-supplied buffers (recomputed tag and stored tag are
+                    # both parameters here; the caller's obligations are checked at its own level)
+                    return ("core", {n}, {par[0][1], par[1][1]}, e)
+                continue
+            nm = e.callee_name()
+            if nm == "ge25519_has_small_order" and fn.sname == "_crypto_sign_ed25519_verify_detached":
+                # Ed25519: the final cofactored group-equation test (detailed in C06 R6.1)
+                if cm.call_has_value(p, e, conj, 1):
+                    return ("core", {"group-equation"}, {0}, e)
+                continue
+            tg, complete = cm.resolved_targets(prog, fn, e)
+            if not tg or not complete or e.res is None:
+                continue
+            if cm.call_is_zero(p, e, conj):
+                acc = "Z"
+            elif p.facts.zeroness(e.res) == "NZ" or any(t == e.res and c == "NZ" for t, c in conj):
+                acc = "NZ"
+            else:
+                continue
+            subs = [self.summary(t, cm.const_bindings(e, t), acc) for t in tg]
+            if all(s is not None and s["ok"] and s.get("nsucc", 0) > 0 for s in subs):
+                tp = set()
+                good = True
+                for s in subs:
+                    for i in s["tagp"]:
+                        a = e.args[i] if i < len(e.args) else None
+                        rp = cm.root_param(a) if a is not None else None
+                        if rp is not None:
+                            tp.add(rp)
+                        elif a is None or T.root(a)[0] != "alloca":
+                            good = False
+                if good and (tp or acc == "Z"):
+                    ln = set()
+                    for s in subs:
+                        ln |= s["lens"]
+                    return ("wrapper", ln, tp, e)
+        return None
+
+    def _analyse(self, fn, bind, accept="Z"):
         prog = self.prog
         try:
-            ps = cm.paths(prog, fn, assume=list(bind))
+            exits = list(cm.exits_returning(prog, fn, accept, assume=list(bind)))
         except AnalysisBroken as e:
             return {"ok": False, "why": [("", str(e), None)], "lens": set(), "tagp": set(), "kind": "?"}
         why = []
@@ -89,67 +147,16 @@ class Auth:
         tagp = set()
         kinds = set()
         nsucc = 0
-        for p in ps:
-            if not p.may_return_zero():
-                continue
-            for conj in cm.success_conjunctions(p):
-                nsucc += 1
-                wit = None
-                for e in p.calls():
-                    n = cm.comparator_len(e)
-                    if n is not None:
-                        if not cm.call_is_zero(p, e, conj):
-                            continue
-                        roots = [T.root(a) for a in e.args[:2]]
-                        loc = [r for r in roots if r[0] == "alloca"]
-                        par = [r for r in roots if r[0] == "arg"]
-                        if len(loc) == 1 and len(par) == 1:
-                            written = any(cm.writes_through(prog, p, e0, loc[0])
-                                          for e0 in p.events[:e.idx] if e0.kind == "call")
-                            if written:
-                                wit = ("core", n, {par[0][1]})
-                                break
-                        continue
-                    nm = e.callee_name()
-                    if nm == "ge25519_has_small_order" and fn.sname == "_crypto_sign_ed25519_verify_detached":
-                        # Ed25519: the final cofactored group-equation test (detailed in C06 R6.1)
-                        if cm.call_has_value(p, e, conj, 1):
-                            wit = ("core", None, {0})
-                            break
-                        continue
-                    tg, complete = cm.resolved_targets(prog, fn, e)
-                    if not tg or not complete or not cm.call_is_zero(p, e, conj):
-                        continue
-                    subs = [self.summary(t, cm.const_bindings(e, t)) for t in tg]
-                    if all(s is not None and s["ok"] for s in subs):
-                        tp = set()
-                        good = True
-                        for s in subs:
-                            for i in s["tagp"]:
-                                rp = cm.root_param(e.args[i]) if i < len(e.args) else None
-                                if rp is None:
-                                    good = False
-                                else:
-                                    tp.add(rp)
-                        if good:
-                            ln = set()
-                            for s in subs:
-                                ln |= s["lens"]
-                            wit = ("wrapper", ln, tp)
-                            break
-                if wit is None:
-                    why.append((fn.loc(p.end_iid), "exit may return 0 without a passed authenticator "
-                                "comparison on the path", p))
-                else:
-                    kinds.add(wit[0])
-                    if wit[0] == "core":
-                        if wit[1] is not None:
-                            lens.add(wit[1])
-                        else:
-                            lens.add("group-equation")
-                    else:
-                        lens |= wit[1]
-                    tagp |= wit[2]
+        for p, conj in exits:
+            nsucc += 1
+            wit = self.witness(fn, p, conj)
+            if wit is None:
+                why.append((fn.loc(p.end_iid), "exit may return %s without a passed authenticator "
+                            "comparison on the path" % ("0" if accept == "Z" else "non-zero"), p))
+            else:
+                kinds.add(wit[0])
+                lens |= wit[1]
+                tagp |= wit[2]
         if nsucc == 0:
             # a function that can never succeed authenticates vacuously (e.g. unavailable-backend stub)
             kinds.add("never-succeeds")
@@ -168,8 +175,8 @@ def entries(prog):
 def auth_closure(prog, auth, ents):
     """all functions whose success was shown to imply authentication (entries + discovered callees)"""
     out = {}
-    for (key, bind), s in auth.memo.items():
-        if s is not None and s["ok"] and s.get("nsucc", 0) > 0:
+    for (key, bind, accept), s in auth.memo.items():
+        if s is not None and s["ok"] and s.get("nsucc", 0) > 0 and accept == "Z":
             out.setdefault(key, []).append(bind)
     return out
 
@@ -229,7 +236,7 @@ def analyse(prog, chk, ents, prefix="R2", floors=True):
     # discovered callees that were needed and failed are reported through their callers above;
     # count distinct cores for the floor
     closure = auth_closure(prog, auth, ents)
-    for (key, bind), s in auth.memo.items():
+    for (key, bind, accept), s in auth.memo.items():
         if s and s["ok"] and "core" in s["kind"]:
             ncore += 1
     _floor(R("R2.1"), "distinct authenticator cores (function x constant bindings)", ncore, 15)
